@@ -49,6 +49,17 @@ func (d *Driver) stopInvokedBefore(inst, gen int, t time.Duration) bool {
 	return false
 }
 
+// startCtxCancelledBefore: the application cancelled the context it gave to Start of that object
+// at or before t (the run's loops end; how fast the claim is given up then is C19's clause).
+func (d *Driver) startCtxCancelledBefore(inst, gen int, t time.Duration) bool {
+	for _, a := range d.h.Apis {
+		if a.Inst == inst && (a.Gen == gen || gen < 0) && a.Kind == ACancelStart && a.TInv <= t {
+			return true
+		}
+	}
+	return false
+}
+
 // expectsOnDemote: the object had an OnDemote callback registered when its claim fell at step.
 func (d *Driver) expectsOnDemote(inst, gen int, step uint64) bool {
 	o := d.obj(inst, gen)
@@ -179,6 +190,35 @@ func (d *Driver) judgeC03as(prop string) {
 				// on leading over a record that it has taken back by accident
 				d.judgedInc(prop)
 				d.h.violate(prop, "refresh-succeeded-after-record-replaced", fmt.Sprintf("i%d.%d: its record was replaced at %v by seq=%d (written by i%d); its next heartbeat attempt (#%d) overwrote that record at %v and it goes on reporting leadership", t.Inst, t.Gen, tL, a1.PrevLive.Seq, a1.PrevLive.Writer, a1.ID, a1.TApply), a1.TApply, a1.SApply)
+			} else if noAttempt := func() bool {
+				// no heartbeat attempt at all was issued after the loss (none that reached the store,
+				// none that was held up on its way): the numeric form of the clause - the instance has
+				// stopped claiming one heartbeat interval and two operation time-outs after the change
+				if a1 != nil || in.cfg.HasHealth {
+					return false
+				}
+				for _, op := range hb {
+					if op.TInvoke > tL || completion(op) > tL {
+						return false
+					}
+				}
+				return true
+			}(); noAttempt {
+				base := tL
+				if t.Start > base {
+					base = t.Start
+				}
+				deadline := base + p.H + 2*T
+				deadline += d.stallIn(t.Inst, base, deadline) + time.Millisecond
+				if !d.stopInvokedBefore(t.Inst, t.Gen, deadline) && deadline < d.endAt && !d.startCtxCancelledBefore(t.Inst, t.Gen, deadline) {
+					d.judgedInc(prop)
+					if t.Fall == nil || t.End > deadline {
+						d.h.violate(prop, "no-heartbeat-attempt-within-H+2T-after-record-loss/record-"+cause,
+							fmt.Sprintf("i%d.%d: its record was %s at %v (term from %v); no heartbeat attempt was issued afterwards and it still claimed leadership at %v (H + 2 time-outs later)", t.Inst, t.Gen, cause, tL, t.Start, deadline), deadline, 0)
+					}
+				} else {
+					d.skip(prop, "clause1-no-attempt-not-judged")
+				}
 			} else {
 				d.skip(prop, "clause1-mixed-or-no-verdict")
 			}
